@@ -67,9 +67,28 @@ def r13_2(ctx):
 
 # ---- the attribute fold ------------------------------------------------------------------------
 def _fold_closure(hb):
+    """the per-attribute step of the attribute builder: the closure of `attrs.iter().fold(..)`, or the body of a `for` loop over the
+    attributes presented as such a closure (`{"k": "Closure", "body": .., "params": [loop pattern], "loop": True}`)"""
     for n in walk(hb["body"]):
         if n.get("k") == "MethodCall" and n["method"] == "fold" and len(n["args"]) == 2 and n["args"][1].get("k") == "Closure":
             return n["args"][1]
+    from .c16 import _is_for_loop
+    for n in walk(hb["body"]):
+        if not _is_for_loop(n):
+            continue
+        sc = strip_transparent(n["scrut"])
+        it = sc["args"][0] if sc.get("args") else None
+        ity = (strip_transparent(it).get("ty") or "") if it is not None else ""
+        if "JSXAttrOrSpread" not in ity:
+            continue
+        # loop { match next(&mut iter) { None => break, Some(pat) => body } }
+        for m in walk(n["arms"][0]["body"]):
+            if m.get("k") == "Match" and len(m.get("arms", [])) == 2:
+                some = [a for a in m["arms"] if pat_str(a["pat"]).startswith("Some(")]
+                if some:
+                    a = some[0]
+                    pats = a["pat"].get("pats") or []
+                    return {"k": "Closure", "body": a["body"], "params": pats[:1], "sp": n.get("sp"), "loop": True, "ty": "loop"}
     return None
 
 
